@@ -913,6 +913,36 @@ def r5c_renderer_slices_run_forward(ctx):
     ctx.floor("source slices taken by render_diagnostic", n, 6)
 
 
+def r10c_a_diagnostic_costs_its_own_text(ctx):
+    """(Known finding D48.)  Every diagnostic quotes the *whole* source line it lies on: the line is sliced from line start to
+    line end and copied (tabs expanded) into arena memory that is not given back, once per diagnostic.  With one statement per
+    line that is a few bytes; on a one-line layout the line is the file, so N warnings cost N x file size - a valid 22 KB
+    program with 2400 unused variables runs when it has one statement per line and aborts with `memory allocation failed`
+    when the same tokens sit on one line (C10), and 5000 lexical errors on a 10 KB line abort instead of being reported."""
+    fn = ctx.need(DIAG + "render_diagnostic")
+    ctx.touch(fn)
+    k = 0
+    for g in [fn] + list(ctx.lib.closures_of(fn.id)):
+        for c in g.calls():
+            if not (c.callee or "").endswith("::index") or len(c.args) < 2:
+                continue
+            e = ne(g.deep(c.args[1], 10))
+            if not (isinstance(e, tuple) and e[0] == "agg" and "Range" in str(e[1]) and len(e[3]) == 2):
+                continue
+            a, b = sh(e[3][0]).replace(" ", ""), sh(e[3][1]).replace(" ", "")
+            if re.search(r"^line_col_in\(.*\)\.2$", a) and re.search(r"^line_col_in\(.*\)\.3$", b):
+                # who gets the whole line?
+                users = [u for u in g.calls() if u.block != c.block and any("index(src" in sh(ne(g.deep(x, 6))).replace(" ", "") and ".2" in sh(ne(g.deep(x, 12))) and ".3" in sh(ne(g.deep(x, 12))) for x in u.args)]
+                copies = [u for u in users if (u.callee or "").split("::")[-1] in ("expand_tabs", "from_str", "push_str", "to_owned", "to_string")]
+                k += 1
+                which = "label-line" if "label" in a or "next(" in a else "primary-line"
+                if copies:
+                    ctx.bad("render-cost|whole-line-copied-per-diagnostic|%s" % which, g.where(c.block), "render_diagnostic copies the whole source line (%s) for every diagnostic into memory the arena keeps: N diagnostics on one line of length L cost N x L, so the same tokens that are reported (or run) with one statement per line abort with `memory allocation failed` on a one-line layout" % (copies[0].callee or "").split("::")[-1])
+                else:
+                    ctx.ok("render-cost|%s" % which, g.where(c.block), "the whole line is not copied per diagnostic")
+    ctx.floor("whole-line quotations in render_diagnostic", k, 1)
+
+
 def r13_type_pre_inference_runs_a_counted_number_of_rounds(ctx):
     """Static checking terminates.  Return types feed each other through calls and their inference is not monotone (`return
     g(n) na 1` / `return f(n)` alternate between bool and dynamic for ever), so the rounds of pre-inference must be counted -
@@ -1145,7 +1175,7 @@ def r11_search_offsets_are_added_to_the_base_they_were_found_from(ctx):
     ctx.floor("search offsets turned into positions", n, 2)
 
 
-RULES = [("C07-R1", r1_cursor_discipline), ("C07-R2", r2_unchecked_reslicing), ("C07-R2b", r2b_byte_reads_in_bounds), ("C07-R2c", r2c_template_reads_in_bounds), ("C07-R5", r5_renderer_boundaries), ("C07-R5c", r5c_renderer_slices_run_forward), ("C07-R13", r13_type_pre_inference_runs_a_counted_number_of_rounds), ("C07-R14", r14_the_preflight_bounds_what_the_analyses_allocate),
+RULES = [("C07-R1", r1_cursor_discipline), ("C07-R2", r2_unchecked_reslicing), ("C07-R2b", r2b_byte_reads_in_bounds), ("C07-R2c", r2c_template_reads_in_bounds), ("C07-R5", r5_renderer_boundaries), ("C07-R5c", r5c_renderer_slices_run_forward), ("C07-R10c", r10c_a_diagnostic_costs_its_own_text), ("C07-R13", r13_type_pre_inference_runs_a_counted_number_of_rounds), ("C07-R14", r14_the_preflight_bounds_what_the_analyses_allocate),
          ("C07-R3", r3_parser_position_free), ("C07-R3b", r3b_parser_spans_are_ordered), ("C07-R4", r4_recovery_progress), ("C07-R8", r8_local_ranges_cover_ids), ("C07-R9", r9_bitset_indexes_agree), ("C07-R5b", r5b_renderer_indexes_stay_inside), ("C07-R10", r10_front_end_memory_is_linear), ("C07-R12", r12_checker_indexes_follow_a_length_test), ("C07-R11", r11_search_offsets_are_added_to_the_base_they_were_found_from)]
 
 EXPLANATION = (
